@@ -32,9 +32,18 @@ func c16Stream(r *rand.Rand, kind int) (stream []byte, ncmds int, desc string) {
 			return []string{"FSET", "k1", pick(r, g.freeIDs), "XX", "f1", fmt.Sprint(g.uniq())}
 		case 1:
 			return []string{"SET", "k1", pick(r, g.freeIDs), "STRING", "v with spaces " + fmt.Sprint(g.uniq())}
+		case 2:
+			// the output format is connection state that changes in the middle of the stream
+			return [][]string{{"OUTPUT", "json"}, {"OUTPUT", "resp"}, {"OUTPUT"}, {"OUTPUT", "json"}}[r.Intn(4)]
 		default:
 			return g.cmd(r).Args
 		}
+	}
+	output := func() (string, bool) {
+		if r.Intn(4) != 0 {
+			return "", false
+		}
+		return []string{"OUTPUT json", "OUTPUT resp", "OUTPUT", "OUTPUT json"}[r.Intn(4)], true
 	}
 	switch kind {
 	case 0: // RESP pipeline, short
@@ -50,6 +59,9 @@ func c16Stream(r *rand.Rand, kind int) (stream []byte, ncmds int, desc string) {
 			if r.Intn(2) == 0 {
 				a = []string{"GET", "k1", pick(r, g.freeIDs), "POINT"}
 			}
+			if o, ok := output(); ok {
+				a = strings.Fields(o)
+			}
 			stream = append(stream, []byte(strings.Join(a, " ")+"\r\n")...)
 		}
 		return stream, n, fmt.Sprintf("telnet-style stream of %d commands", n)
@@ -59,6 +71,9 @@ func c16Stream(r *rand.Rand, kind int) (stream []byte, ncmds int, desc string) {
 			a := strings.Join([]string{"SET", "k1", pick(r, g.freeIDs), "POINT", g.lat(r), g.lon(r)}, " ")
 			if r.Intn(2) == 0 {
 				a = "GET k1 " + pick(r, g.freeIDs)
+			}
+			if o, ok := output(); ok {
+				a = o
 			}
 			stream = append(stream, []byte(fmt.Sprintf("$%d %s\r\n", len(a), a))...)
 		}
@@ -180,7 +195,9 @@ func runC16(w *World) {
 		return
 	}
 	// baseline sanity: one reply per command, in order
-	if kind == 0 || kind == 1 || kind == 5 || kind == 6 {
+	// (a connection switched to JSON output does not answer in plain RESP framing: such streams are
+	// only compared with their own uncut baseline)
+	if (kind == 0 || kind == 1 || kind == 5 || kind == 6) && !bytes.Contains(stream, []byte("OUTPUT")) {
 		cnt := 0
 		rest := base
 		for len(rest) > 0 {
